@@ -527,6 +527,8 @@ def primary_props(props, group):
 
 def clause_props(unit, clause):
     pr = set(unit.props)
+    if clause == "total" and (getattr(unit, "group", "") in ("pp_table", "pp_number", "synonym") or unit.name.startswith("b_lexer")):
+        pr = pr | {"C15"}
     if getattr(unit, "group", "") in ("pp_table", "pp_number", "synonym"):
         pr = pr | {"C11"}      # C11: the lowered instruction does not depend on the spelling / the notation of a constant
     if clause == "total":
@@ -543,6 +545,8 @@ def unit_serves(unit, pid):
         return True
     if pid == "C11" and getattr(unit, "group", "") in ("pp_table", "pp_number", "synonym"):
         return True
+    if pid == "C15" and (getattr(unit, "group", "") in ("pp_table", "pp_number", "synonym") or unit.name.startswith("b_lexer")):
+        return True          # C15 (partial): the `total` clause of the front end's units
     if pid == "C04" and unit.klass == "M" and unit.kind == "production" and "mem.frame" in unit.clauses:
         return True
     return False
